@@ -15,6 +15,9 @@ PROP = {
         "queryToPath_exact", "arrives_eq_self_iff", "arrivesAsList_unique"]],
     "components": [
         {"c": "pv", "quick": {"n": 5000, "exhaustive": True}, "thorough": {"n": 40000, "exhaustive": True, "seeds": 4}},
+        # the index paths a client is HANDED (client/gnmi noti on prefix + path): the rx receive surface, whose `recv`
+        # op also checks that a retained path does not change while the rest of its notification is delivered
+        {"c": "rx", "label": "rx-c19", "quick": {"n": 600, "exhaustive": False}, "thorough": {"n": 6000, "exhaustive": True, "seeds": 2}},
     ],
     "extra": [steps_C19.monitor],
     "monitor": "spec",
